@@ -24,8 +24,37 @@ Var(iv, ov, nin, nout, ramp) == [inVoa |-> iv, outVoa |-> ov, nIn |-> nin, nOut 
 MCVariants == {Var(0, 0, 16, 0, 0), Var(1500000, 2 * dB, 12, 2, 0), Var(0, 1 * dB, 12, 0, 1)}
 MCTilts    == {0, 0 - 1500000}
 MCPinTots  == {0 - 25 * dB, 0 - 10 * dB, 0, 6 * dB, 12 * dB}
+MCPinTotsQuick == {0 - 25 * dB, 0 - 10 * dB, 6 * dB, 12 * dB}
 
 Emit == Len(hist) < MaxCross \/ PrintT("@@" \o ToJson([amp |-> amp, set |-> set, hist |-> hist]))
+
+(* ---- NF sweep laws of LineElements: checked here on an integer min/max-NF curve, and shown to reject   ---- *)
+(* ---- the curves a defect would produce (TLC evaluates the ASSUMEs before exploring)                        ---- *)
+SwCfg == [gainMin |-> 15 * dB, flatMax |-> 25 * dB, nfMin |-> 6 * dB, nfMax |-> 10 * dB, minmax |-> 1]
+\* ideal curve: nfMax + dB-for-dB padding below gainMin, linear nfMax -> nfMin inside the range, flat above
+NfIdeal(g) == IF g < SwCfg.gainMin THEN SwCfg.nfMax + (SwCfg.gainMin - g)
+              ELSE IF g <= SwCfg.flatMax
+                   THEN SwCfg.nfMax - ((SwCfg.nfMax - SwCfg.nfMin) * ((g - SwCfg.gainMin) \div dB)) \div ((SwCfg.flatMax - SwCfg.gainMin) \div dB)
+                   ELSE SwCfg.nfMin
+SwGains == [k \in 1..16 |-> (11 + k) * dB]                                 \* 12 .. 27 dB
+Curve(f(_)) == [k \in 1..16 |-> [g |-> SwGains[k], nf |-> f(SwGains[k])]]
+NoPadding(g)    == IF g < SwCfg.gainMin THEN SwCfg.nfMax ELSE NfIdeal(g)    \* padding lost
+Bump(g)         == IF g = 20 * dB THEN NfIdeal(g) + dB ELSE NfIdeal(g)      \* not monotone
+Shifted(g)      == NfIdeal(g) + 500000                                      \* wrong end points
+AllSweepLaws(pts) == /\ SweepNfMinAtFlatMax(SwCfg, pts, 0) /\ SweepNfMaxAtGainMin(SwCfg, pts, 0)
+                     /\ SweepNonIncreasing(SwCfg, pts, 0) /\ SweepDbForDbBelowMin(SwCfg, pts, 0)
+ASSUME AllSweepLaws(Curve(NfIdeal))
+ASSUME ~SweepDbForDbBelowMin(SwCfg, Curve(NoPadding), 0)
+ASSUME ~SweepNonIncreasing(SwCfg, Curve(Bump), 0)
+ASSUME ~SweepNfMinAtFlatMax(SwCfg, Curve(Shifted), 11000) /\ ~SweepNfMaxAtGainMin(SwCfg, Curve(Shifted), 11000)
+
+\* synthetic min/max-NF library entries for the NF sweeps (the harness writes them as equipment JSON; entries the
+\* loader itself refuses - its nf1/nf2 plausibility checks - are legitimately rejected and skipped)
+SweepEntries == {[gainMin |-> gm * dB, flatMax |-> (gm + sp) * dB, nfMin |-> nm, nfMax |-> nm + d] :
+                    gm \in {10, 15, 20}, sp \in {8, 11, 15}, nm \in {5500000, 6500000}, d \in {3 * dB, 4500000}}
+FirstAmp == CHOOSE a \in Amps : TRUE
+FirstSet == CHOOSE x \in Settings(FirstAmp) : TRUE
+EmitSweepEntries == hist # <<>> \/ amp # FirstAmp \/ set # FirstSet \/ \A e \in SweepEntries : PrintT("@@" \o ToJson(e))
 
 \* non-vacuity probes (each must be violated)
 ProbeSaturated == \A k \in H : ~hist[k].sat
